@@ -602,7 +602,14 @@ fn c18_multi(stats: &mut Stats) -> Vec<Failure> {
     let unf2 = "local   y  =  2\nlocal z   = 3\n";
     let fmt1 = "local x = 1\n";
     for (first, second) in [(unf1, unf2), (fmt1, unf2), (unf1, fmt1), (fmt1, fmt1)] {
-        for args in [vec!["a.lua", "vendor/../a.lua"], vec!["vendor/../a.lua", "a.lua"], vec!["a.lua", "../shared/a.lua"], vec![".", "vendor/../a.lua"]] {
+        for args in [
+            vec!["a.lua", "vendor/../a.lua"],
+            vec!["vendor/../a.lua", "a.lua"],
+            vec!["a.lua", "../shared/a.lua"],
+            vec![".", "vendor/../a.lua"],
+            // a glob list that only excludes: everything else is still checked (only proj/a.lua is below `.`)
+            vec!["--glob", "!vendor/**", "--", "."],
+        ] {
             for fmt in ["Unified", "Json", "Summary", "Standard"] {
                 let mut t = Tree::default();
                 t.add("proj/a.lua", first.as_bytes());
@@ -623,7 +630,8 @@ fn c18_multi(stats: &mut Stats) -> Vec<Failure> {
         let mut f = vec![];
         let first_differs = s.desc.contains("first=\"local   x");
         let second_differs = s.desc.contains("second=\"local   y");
-        let n = first_differs as usize + second_differs as usize;
+        let only_first = s.desc.contains("--glob");
+        let n = first_differs as usize + if only_first { 0 } else { second_differs as usize };
         let fmt = s.run.argv[4].as_str();
         let stdout = String::from_utf8_lossy(&o.stdout).to_string();
         let reported = match fmt {
@@ -750,6 +758,8 @@ pub enum Kind {
     Immutable,
     /// an existing regular file named with a trailing slash (the walker reports an error other than "not found")
     NotDir,
+    /// does not parse, and the error sits on a `;` (a field access used as a statement)
+    Unparseable2,
     /// formatted except for its line terminators (CRLF under the default Unix setting)
     Crlf,
     /// formatted except that the final line terminator is missing
@@ -771,6 +781,7 @@ impl Kind {
             Kind::Crash => 'C',
             Kind::Immutable => 'W',
             Kind::NotDir => 'D',
+            Kind::Unparseable2 => 'Q',
             Kind::Crlf => 'L',
             Kind::NoEol => 'N',
             Kind::ReadOnly => 'R',
@@ -782,6 +793,7 @@ impl Kind {
             Kind::Formatted | Kind::NotDir => format!("local x{} = 1\n", i).into_bytes(),
             Kind::Unformatted | Kind::Immutable | Kind::ReadOnly | Kind::Unreadable => format!("local   x{}  =  2\n", i).into_bytes(),
             Kind::Unparseable => format!("local x{} = = 1\n", i).into_bytes(),
+            Kind::Unparseable2 => format!("local M{} = {{}}\nM{}.count   =   0\nM{}.reset;\nreturn M{}\n", i, i, i, i).into_bytes(),
             Kind::Crlf => format!("local x{} = 1\r\nlocal y = 2\r\n", i).into_bytes(),
             Kind::NoEol => format!("local x{} = 1", i).into_bytes(),
             Kind::InvalidUtf8 => {
@@ -913,6 +925,9 @@ pub fn c13(thorough: bool, stats: &mut Stats) -> Vec<Failure> {
         ("range-start-only", vec!["--range-start", "1000"], vec![]),
         ("range-end-only", vec!["--range-end", "0"], vec![]),
         ("range-start-0", vec!["--range-start", "0"], vec![]),
+        // the files live below a hidden directory: found only, and exactly, with --allow-hidden
+        ("hidden-dir", vec![], vec![]),
+        ("hidden-dir+allow-hidden", vec!["--allow-hidden"], vec![]),
         ("log=off", vec![], vec![("STYLUA_LOG", "off")]),
         ("log=error", vec![], vec![("STYLUA_LOG", "error")]),
         ("log=debug", vec![], vec![("STYLUA_LOG", "debug")]),
@@ -928,7 +943,11 @@ pub fn c13(thorough: bool, stats: &mut Stats) -> Vec<Failure> {
                     if layout != "flat" && ks.contains(&Kind::Missing) {
                         continue;
                     }
-                    let paths = layout_paths(&ks, layout);
+                    let hidden = oname.starts_with("hidden-dir");
+                    if hidden && layout == "flat" {
+                        continue;
+                    }
+                    let paths: Vec<String> = layout_paths(&ks, layout).into_iter().map(|p| if hidden { format!(".cfg/nvim/{}", p) } else { p }).collect();
                     let mut t = Tree::default();
                     for (i, k) in ks.iter().enumerate() {
                         if *k != Kind::Missing {
@@ -975,7 +994,9 @@ pub fn c13(thorough: bool, stats: &mut Stats) -> Vec<Failure> {
         let any_fail = kinds.iter().any(|k| matches!(k, 'P' | 'I' | 'M' | 'D' | 'V'));
         let after_write = s.desc.ends_with("history=write-then-check");
         let opt = s.desc.split("opt=").nth(1).unwrap_or("");
-        let n_unf = if after_write {
+        // without --allow-hidden nothing below the hidden directory is selected
+        let any_fail = any_fail && opt != "hidden-dir";
+        let n_unf = if after_write || opt == "hidden-dir" {
             0
         } else if opt.starts_with("range-") {
             // what differs under a range comes from the library, called with the same one-sided range
@@ -1045,7 +1066,7 @@ pub fn unprivileged_supported() -> bool {
 }
 
 pub fn c14(thorough: bool, stats: &mut Stats) -> Vec<Failure> {
-    let mut alpha = vec![Kind::Unformatted, Kind::Formatted, Kind::Unparseable, Kind::VerifyFail, Kind::Crash, Kind::InvalidUtf8, Kind::Immutable];
+    let mut alpha = vec![Kind::Unformatted, Kind::Formatted, Kind::Unparseable, Kind::VerifyFail, Kind::Crash, Kind::InvalidUtf8, Kind::Immutable, Kind::Unparseable2];
     if !immutable_supported() {
         // without a working immutable attribute the "unwritable" kind cannot be produced: leave it out and say so
         alpha.retain(|k| *k != Kind::Immutable);
@@ -1086,8 +1107,16 @@ pub fn c14(thorough: bool, stats: &mut Stats) -> Vec<Failure> {
                             if uid.is_some() && (verify || nt == 4) {
                                 continue;
                             }
+                            for sortcfg in [false, true] {
+                            // (verification must still happen when the configuration enables sort_requires)
+                            if sortcfg && !(verify && ks.len() <= 2 && fmt == "Standard" && nt == 1 && uid.is_none()) {
+                                continue;
+                            }
                             let paths = layout_paths(&ks, layout);
                             let mut t = Tree::default();
+                            if sortcfg {
+                                t.add("stylua.toml", b"[sort_requires]\nenabled = true\n");
+                            }
                             let mut post = vec![];
                             for (i, k) in ks.iter().enumerate() {
                                 if *k == Kind::Missing {
@@ -1114,15 +1143,17 @@ pub fn c14(thorough: bool, stats: &mut Stats) -> Vec<Failure> {
                                 argv.push(".".into());
                             }
                             let desc = format!(
-                                "C14 kinds={} layout={} verify={} threads={} format={} user={}",
+                                "C14 kinds={} layout={} verify={} threads={} format={} user={}{}",
                                 ks.iter().map(|k| k.letter()).collect::<String>(),
                                 layout,
                                 verify,
                                 nt,
                                 fmt,
-                                if uid.is_some() { "nobody" } else { "self" }
+                                if uid.is_some() { "nobody" } else { "self" },
+                                if sortcfg { " config=sort_requires" } else { "" }
                             );
                             scs.push(Scenario { desc, tree: t, run: Run { argv, env: vec![("STYLUA_VERIF_FAULTS".into(), "1".into())], post, uid, ..Run::default() } });
+                            }
                         }
                     }
                 }
@@ -1169,7 +1200,7 @@ pub fn c14(thorough: bool, stats: &mut Stats) -> Vec<Failure> {
             f.push(("exit-status".into(), format!("exit status {} but expected {}", o.code, want)));
         }
         let present: Vec<char> = kinds.iter().cloned().filter(|k| *k != 'M').collect();
-        for (i, (p, b)) in s.tree.files.iter().enumerate() {
+        for (i, (p, b)) in s.tree.files.iter().filter(|(p, _)| p.ends_with(".lua")).enumerate() {
             let k = present[i];
             let Some(after) = o.after.get(p) else {
                 f.push(("file-removed".into(), format!("{} no longer exists", p)));
@@ -1354,9 +1385,21 @@ pub fn c15(thorough: bool, stats: &mut Stats) -> Vec<Failure> {
                             }
                         }
                         for cp in cps {
+                          for linked in [false, true] {
+                            if linked && (sub.len() != 1 || over || cp.is_some() || noec) {
+                                continue;
+                            }
                             let mut tree = Tree::default();
                             for i in sub {
-                                tree.add(PLACES[*i].0, place_content(*i).as_bytes());
+                                if linked {
+                                    // the configuration file is a symbolic link to a regular file kept elsewhere
+                                    let store = format!("_store/cfg{}", i);
+                                    tree.add(&store, place_content(*i).as_bytes());
+                                    let depth = PLACES[*i].0.matches('/').count();
+                                    tree.link(PLACES[*i].0, &format!("{}{}", "../".repeat(depth), store));
+                                } else {
+                                    tree.add(PLACES[*i].0, place_content(*i).as_bytes());
+                                }
                             }
                             for f in ["p/w/f.lua", "p/w/s/f.lua", "p/w/s/d/f.lua", "p/o.lua"] {
                                 tree.add(f, PROBE.as_bytes());
@@ -1387,18 +1430,20 @@ pub fn c15(thorough: bool, stats: &mut Stats) -> Vec<Failure> {
                                 argv.push(a.to_string());
                             }
                             let desc = format!(
-                                "C15 places={:?} target={} search_parents={} no_editorconfig={} override={} config_path={:?}",
+                                "C15 places={:?} target={} search_parents={} no_editorconfig={} override={} config_path={:?}{}",
                                 sub.iter().map(|i| PLACES[*i].0).collect::<Vec<_>>(),
                                 t.name,
                                 sp,
                                 noec,
                                 over,
-                                cp.map(|c| PLACES[c].0)
+                                cp.map(|c| PLACES[c].0),
+                                if linked { " linked-config" } else { "" }
                             );
                             scs.push((
                                 Scenario { desc, tree, run: Run { argv, cwd: "p/w".into(), stdin: if t.stdin { Some(PROBE.as_bytes().to_vec()) } else { None }, ..Run::default() } },
                                 (sub.clone(), ti, sp, noec, over, cp),
                             ));
+                          }
                         }
                     }
                 }
@@ -1544,7 +1589,9 @@ fn c16_glob_match(file: &str, globs: usize, luau: bool) -> bool {
         // only a negated pattern: everything but what it names
         3 => base != "d.lua",
         // a pattern with an inner `/` is anchored at the working directory: s/*.lua
-        _ => file.strip_prefix("s/").map_or(false, |r| !r.contains('/') && r.ends_with(".lua")),
+        4 => file.strip_prefix("s/").map_or(false, |r| !r.contains('/') && r.ends_with(".lua")),
+        // one pattern with a brace alternation (and therefore a comma): **/*.{lua,txt}
+        _ => base.ends_with(".lua") || base.ends_with(".txt"),
     }
 }
 
@@ -1644,7 +1691,7 @@ pub fn c16(thorough: bool, stats: &mut Stats) -> Vec<Failure> {
     for args in &arglists {
         let extra = args.iter().any(|a| C16_ARGS_EXTRA.contains(a));
         for ign in &igns {
-            for globs in 0..5usize {
+            for globs in 0..6usize {
                 for respect in [false, true] {
                     for hidden in [false, true] {
                         for mode in ["write", "summary"] {
@@ -1662,7 +1709,7 @@ pub fn c16(thorough: bool, stats: &mut Stats) -> Vec<Failure> {
                             }
                             // quick tier, lists of two arguments: a subset of the ignore lists and glob lists (single arguments
                             // take them all)
-                            if !thorough && args.len() > 1 && (!matches!(ign, None | Some(("", 1)) | Some(("", 2)) | Some(("s", 1)) | Some(("s", 4))) || !matches!(globs, 0 | 2 | 4)) {
+                            if !thorough && args.len() > 1 && (!matches!(ign, None | Some(("", 1)) | Some(("", 2)) | Some(("s", 1)) | Some(("s", 4))) || !matches!(globs, 0 | 2 | 4 | 5)) {
                                 continue;
                             }
                             // the extra spellings: one ignore list per location and no hidden variants in the quick tier
@@ -1689,6 +1736,7 @@ pub fn c16(thorough: bool, stats: &mut Stats) -> Vec<Failure> {
                                 2 => argv.extend(["-g".into(), "**/*.lua".into(), "-g".into(), "!**/d.lua".into()]),
                                 3 => argv.extend(["-g".into(), "!**/d.lua".into()]),
                                 4 => argv.extend(["-g".into(), "s/*.lua".into()]),
+                                5 => argv.extend(["-g".into(), "**/*.{lua,txt}".into()]),
                                 _ => {}
                             }
                             if respect {
@@ -1869,6 +1917,9 @@ pub fn c17(thorough: bool, stats: &mut Stats) -> Vec<Failure> {
         // the log level variable must not change status or output
         ("log=off", vec![]),
         ("log=debug", vec![]),
+        // a forced configuration file (2-space indentation), alone and under a command line flag
+        ("config-path", vec!["--config-path", "forced/custom.toml"]),
+        ("config-path+flag", vec!["--config-path", "forced/custom.toml", "--indent-width", "7", "--quote-style", "ForceSingle"]),
         // a positive --glob pattern must not filter the stdin pseudo-file
         ("glob", vec!["-g", "**/*.lua"]),
         // an .editorconfig is present in these two (stylua.toml, when there, still comes first)
@@ -1908,6 +1959,9 @@ pub fn c17(thorough: bool, stats: &mut Stats) -> Vec<Failure> {
                     t.add("src/keep.lua", b"local   untouched  =  1\n");
                     if with_cfg {
                         t.add("stylua.toml", b"indent_type = \"Spaces\"\nindent_width = 2\n");
+                    }
+                    if oname.starts_with("config-path") {
+                        t.add("forced/custom.toml", b"indent_type = \"Spaces\"\nindent_width = 6\n");
                     }
                     if oname.ends_with("editorconfig") {
                         t.add(".editorconfig", b"root = true\n[*.lua]\nindent_style = space\nindent_size = 5\nquote_type = single\n");
@@ -1958,6 +2012,16 @@ pub fn c17(thorough: bool, stats: &mut Stats) -> Vec<Failure> {
             cfg.iw = 3;
             cfg.qs = 3;
             cfg.le = 1;
+        }
+        if oname.starts_with("config-path") {
+            // the forced file replaces whatever the search would find
+            cfg = Cfg::default();
+            cfg.it = 1;
+            cfg.iw = 6;
+            if oname == "config-path+flag" {
+                cfg.iw = 7;
+                cfg.qs = 3;
+            }
         }
         if oname == "editorconfig" && !*with_cfg && !fname.contains("outside") {
             cfg.it = 1;
@@ -2079,7 +2143,7 @@ pub fn c20(_thorough: bool, stats: &mut Stats) -> Vec<Failure> {
     }
     vals.push(V { opt: "sort_requires", toml: "[sort_requires]\nenabled = true".into(), flag: vec!["--sort-requires".into()], ec: Some(("sort_requires", "true".into())), cfg: Cfg { sort: true, ..d } });
     vals.push(V { opt: "sort_requires", toml: "[sort_requires]\nenabled = false".into(), flag: vec![], ec: Some(("sort_requires", "false".into())), cfg: d });
-    let widths = [20usize, 40, 80, 120];
+    let widths = [0usize, 1, 20, 40, 80, 120];
     let mut wvals = vec![];
     for w in widths {
         wvals.push((w, V { opt: "column_width", toml: format!("column_width = {}", w), flag: vec!["--column-width".into(), w.to_string()], ec: Some(("max_line_length", w.to_string())), cfg: d }));
